@@ -1,3 +1,6 @@
+#[cfg(orx_concurrent_iter_verif)]
+use crate::verif::atomic::{AtomicUsize, Ordering};
+#[cfg(not(orx_concurrent_iter_verif))]
 use std::sync::atomic::{AtomicUsize, Ordering};
 
 /// An atomic counter, simply a wrapper around `AtomicUsize` with utility methods useful for atomic iterators.
